@@ -24,6 +24,8 @@ UNSTABLE_OK_KINDS = ("stable", "mergesort")
 
 def check(ctx):
     repo = ctx.repo
+    from . import generic as _gen
+    _gen.language_traps(ctx, _gen.anchor_functions(repo, "C11"), "the property holds for every input, on every call")
     ctx.rule("ORD-3", "argsort sites in Vector.sort/rank use kind='stable'")
     ctx.rule("SIB-na-last", "each exit of sort returns X[~na].concat(X[na]) with na computed from the final X")
     ctx.rule("MPT-rank", "every method branch of rank fills out[~na] and out[na]; unknown methods raise")
